@@ -8,6 +8,8 @@ PT = [10, 11, 12, 13, 14, 15]         # value types used most
 IF = [20, 21, 22]
 NAMES = ["", "", "", "n1", "n2"]
 GROUPS = ["g", "h"]
+# legal names / group names whose *content* matters to whoever formats, quotes, compares or splits them
+ODD = ['q"x', 'b\\s', 'sp ace', '\u00fc', 'N1', 'x:y', "it's", 'tab\there']
 
 DEFAULT_W = dict(
     malformed=0.12,      # probability that a function / option is drawn from the malformed stream
@@ -21,6 +23,10 @@ DEFAULT_W = dict(
     multias=0.25,        # (given As) several results sharing the As list, one of them being a listed interface itself
     optseq=0.3,          # container options given in another order / repeated (the last value counts)
     selfcycle=0.02,      # a constructor feeding, through several results, the group it consumes
+    longchain=0.01,      # a dependency chain of 17..45 named values (size thresholds), ending well, badly, nowhere or in itself
+    oddkinds=0.02,       # non-pointer implementers (zero values behind interfaces), channel / map / function typed keys
+    strmix=0.04,         # a name equal to a group name in use (and vice versa)
+    oddstr=0.0,          # names / group names with quotes, backslashes, blanks, non-ASCII, upper case
     shadow=0.03,         # one key provided in a scope and in an ancestor, decorated on the path, consumed below
     vizgroup=0.0,        # a value group with failing members, consumed and drawn with that Invoke's error
     loc=0.03,            # Provide carries dig.LocationForPC
@@ -107,7 +113,13 @@ class Gen:
         return r.choice(PT)
 
     def pick_name(self):
-        return self.r.choice(NAMES) if self.p("named") else ""
+        if not self.p("named"):
+            return ""
+        if self.r.random() < self.w["oddstr"]:
+            return self.r.choice(ODD)
+        if self.r.random() < self.w["strmix"]:
+            return self.r.choice(GROUPS)
+        return self.r.choice(NAMES)
 
     def err_t(self):
         """the type of an error result: `error`, sometimes the user-defined error interface EI"""
@@ -116,6 +128,10 @@ class Gen:
     def pick_group(self):
         """a group name; rarely one that differs from another only by a blank"""
         g = self.r.choice(GROUPS)
+        if self.r.random() < self.w["oddstr"]:
+            g = self.r.choice(ODD)
+        elif self.r.random() < self.w["strmix"]:
+            g = self.r.choice(["n1", "n2"])
         if self.r.random() < self.w["blankgroup"]:
             g = self.r.choice([g + " ", " " + g])
         return g
@@ -882,6 +898,90 @@ class Gen:
             self.invokers.append((cf, csc))
             self.ops.append({"op": "invoke", "scope": csc, "fn": cf, "info": False})
 
+    # ---- a long dependency chain of named values: nothing in dig may depend on how long it is
+    def op_long_chain(self):
+        r = self.r
+        d = r.choice([17, 20, 33, 40, 45])
+        t = r.choice(PT)
+        tag = "c%d_" % len(self.fns)
+        sc = r.randrange(0, self.nscopes)
+        path = self.anc(sc)
+        ending = r.choice(["ok", "ok", "err", "panic", "missing", "cycle", "optmissing"])
+        ops = []
+        for i in range(d):
+            opt = ending == "optmissing" and i == d - 1
+            fid = self.new_fn([self.single_in(t, "%s%d" % (tag, i + 1), optional=opt)], [u(t)])
+            self.script[str(fid)] = [{"k": "ok", "len": 1, "dt": 0, "eslot": 0}] * 3
+            ops.append({"op": "provide", "scope": r.choice(path) if r.random() < 0.3 else sc, "fn": fid, "name": "%s%d" % (tag, i), "group": "",
+                        "as": [], "export": False, "cb": self.p("cb") and i in (0, d - 1), "info": False, "opts": ["name"]})
+        if ending in ("ok", "err", "panic"):
+            fid = self.new_fn([], [u(t)] + ([u(0)] if ending == "err" or r.random() < 0.3 else []))
+            self.script[str(fid)] = [{"k": ending, "len": 1, "dt": 0, "eslot": 0}, {"k": "ok", "len": 1, "dt": 0, "eslot": 0}]
+            ops.append({"op": "provide", "scope": sc, "fn": fid, "name": "%s%d" % (tag, d), "group": "", "as": [], "export": False,
+                        "cb": self.p("cb"), "info": False, "opts": ["name"]})
+        elif ending == "cycle":
+            # the last link needs the first: whichever Provide comes last closes the cycle and is rejected
+            fid = self.new_fn([self.single_in(t, "%s0" % tag)], [u(t)])
+            ops.append({"op": "provide", "scope": sc, "fn": fid, "name": "%s%d" % (tag, d), "group": "", "as": [], "export": False,
+                        "cb": False, "info": False, "opts": ["name"]})
+        if r.random() < 0.5:
+            r.shuffle(ops)
+        self.ops.extend(ops)
+        inv = self.new_fn([self.single_in(t, "%s0" % tag)], [])
+        self.invokers.append((inv, sc))
+        below = [s for s in range(self.nscopes) if sc in self.anc(s)]
+        for _ in range(r.choice([1, 2])):
+            self.ops.append({"op": "invoke", "scope": r.choice(below), "fn": inv, "info": False})
+
+    # ---- kinds of types that are none of pointer / interface / slice / struct, and a non-pointer implementer
+    def op_odd_kinds(self):
+        r = self.r
+        sc = r.randrange(0, self.nscopes)
+        c = r.randrange(0, 4)
+        if c == 0:
+            # ZI (an int8 with a method) provided As I0: consumers get a non-nil interface holding the zero value
+            grp = self.pick_group() if r.random() < 0.35 else ""
+            fid = self.new_fn([], [u(71)])
+            opts = ["as"] + (["group"] if grp else [])
+            self.ops.append({"op": "provide", "scope": sc, "fn": fid, "name": "", "group": grp, "as": [{"iface": 20}], "export": False,
+                             "cb": self.p("cb"), "info": r.random() < 0.3, "opts": sorted(opts)})
+            if grp:
+                ins = [self.st([self.in_field(), self.field("G", u(40), {"group": grp})])]
+            else:
+                ins = r.choice([[u(20)], [self.st([self.in_field(), self.field("A", u(20))])],
+                                [self.st([self.in_field(), self.field("A", u(20), {"optional": "true"}), self.field("B", u(20))])]])
+            inv = self.new_fn(ins, [])
+            self.invokers.append((inv, sc))
+            self.ops.append({"op": "invoke", "scope": sc, "fn": inv, "info": False})
+            return
+        t = r.choice([82, 83, 84, 71])
+        if c == 1:
+            # asked for, provided nowhere
+            ins = r.choice([[u(t)], [self.st([self.in_field(), self.field("A", u(t))])],
+                            [self.st([self.in_field(), self.field("A", u(t), {"optional": "true"})])]])
+            if r.random() < 0.5:
+                mid = self.new_fn(ins, [u(r.choice(PT[3:]))])
+                vt = self.fns[-1]["out"][0]["u"]
+                nm = "k%d" % mid
+                self.ops.append({"op": "provide", "scope": sc, "fn": mid, "name": nm, "group": "", "as": [], "export": False,
+                                 "cb": self.p("cb"), "info": False, "opts": ["name"]})
+                ins = [self.single_in(vt, nm)]
+            inv = self.new_fn(ins, [])
+            self.invokers.append((inv, sc))
+            self.ops.append({"op": "invoke", "scope": sc, "fn": inv, "info": r.random() < 0.2})
+            return
+        # provided (its scripted value is the zero value) and consumed, plainly, by name or through a group
+        nm = self.pick_name() if c == 2 else ""
+        grp = self.pick_group() if c == 3 else ""
+        fid = self.new_fn([], [u(t)] + ([u(0)] if r.random() < 0.3 else []))
+        self.ops.append({"op": "provide", "scope": sc, "fn": fid, "name": nm, "group": grp, "as": [], "export": False,
+                         "cb": self.p("cb"), "info": r.random() < 0.3, "opts": sorted((["name"] if nm else []) + (["group"] if grp else []))})
+        if grp:
+            return
+        inv = self.new_fn([self.single_in(t, nm)], [])
+        self.invokers.append((inv, sc))
+        self.ops.append({"op": "invoke", "scope": sc, "fn": inv, "info": False})
+
     # ---- a constructor that feeds (through several results) the very group it consumes: rejected for the cycle
     def op_group_self_cycle(self):
         r = self.r
@@ -1042,6 +1142,12 @@ class Gen:
                 continue
             if r.random() < self.w["selfcycle"]:
                 self.op_group_self_cycle()
+                continue
+            if r.random() < self.w["longchain"]:
+                self.op_long_chain()
+                continue
+            if r.random() < self.w["oddkinds"]:
+                self.op_odd_kinds()
                 continue
             if r.random() < self.w["deepcycle"]:
                 self.op_deep_cycle()
